@@ -240,7 +240,11 @@ Arguments op : clear implicits.
    pred_mode mod 4 selects the predicate; the higher bits select the builder route in the harness (order of
    handle() and the strategy setter, name(), on_event(), a decoy strategy setter or a decoy handle() that is
    overridden, the convenience constructors): every route configures the same layer.
-   The concrete closures below are mirrored verbatim in harness/src/bin/c17.rs. *)
+   The concrete closures below are mirrored verbatim in harness/src/bin/c17.rs.
+   Responses are instantiated as FUNCTIONS OF THE INDEX OF THE CALL that produced them (Res := Z -> Z), applied
+   when the trace is written: every response is a constant function except the value_fn generator's, which in
+   the harness returns a different value at each invocation (value + 1 + 100 * the call being polled) — a
+   generator whose result is computed once and handed out again is thereby visible. *)
 Definition fe (e : Z) : Z := 1000 + 3 * e.
 Definition fre (r e : Z) : Z := 2000 + 37 * r + e.
 Definition fx (e : Z) : Z := 5000 + 7 * e.
@@ -249,18 +253,18 @@ Definition pred_of (m : Z) : option (Z -> bool) :=
   if m =? 1 then Some (fun e => Z.even e) else
   if m =? 2 then Some (fun _ => true) else Some (fun _ => false).
 
-Definition strategy_of (s : list Z) : strategy Z Z Z :=
+Definition strategy_of (s : list Z) : strategy Z (Z -> Z) Z :=
   let v := zn s 2 in
   match zn s 0 with
-  | 0 => SValue v | 1 => SValueFn (fun _ => v + 1) | 2 => SFromError fe
-  | 3 => SFromRequestError fre | 4 => SService | _ => SException fx
+  | 0 => SValue (fun _ => v) | 1 => SValueFn (fun _ k => v + 1 + 100 * k) | 2 => SFromError (fun e _ => fe e)
+  | 3 => SFromRequestError (fun r e _ => fre r e) | 4 => SService | _ => SException fx
   end.
 
-Definition outcome_of (b : Z) : outcome Z Z :=
+Definition outcome_of (b : Z) : outcome (Z -> Z) Z :=
   let k := b mod 4 in
-  if k =? 0 then OOk (b / 4) else if k =? 1 then OErr (b / 4) else OPanic.
+  if k =? 0 then OOk (fun _ => b / 4) else if k =? 1 then OErr (b / 4) else OPanic.
 
-Definition op_of (t : Z * Z * Z) : op Z Z Z :=
+Definition op_of (t : Z * Z * Z) : op Z (Z -> Z) Z :=
   let '(o, a, b) := t in
   match o with
   | 1 => OpCall b
@@ -278,7 +282,7 @@ Definition default_ops (s : list Z) : list (Z * Z * Z) :=
   let bo := if zn s 6 =? 0 then 4 * (zn s 7 + 13 * req) else 4 * zn s 7 + 1 in
   [(1, 0, req); (2, 0, 0); (3, 0, io); (2, 0, 0); (4, 0, bo); (2, 0, 0)].
 
-Definition ops_of (s : list Z) : list (op Z Z Z) :=
+Definition ops_of (s : list Z) : list (op Z (Z -> Z) Z) :=
   let raw := chunk3 (skipn 8 s) in
   map op_of (match raw with [] => default_ops s | _ => raw end).
 
@@ -293,9 +297,10 @@ Definition enc_event (ke : nat * event Z Z) : list Z :=
 Definition enc_ferr (f : ferr Z) : list Z :=
   match f with Inner e => [1; e] | FallbackFailed e => [2; e] end.
 
-Definition enc_call (c : callst Z Z Z) : list Z :=
+Definition enc_call (kc : nat * callst Z (Z -> Z) Z) : list Z :=
+  let (k, c) := kc in
   match c_phase c with
-  | PDone (inl x) => [0; x]
+  | PDone (inl x) => [0; x (Z.of_nat k)]
   | PDone (inr f) => enc_ferr f
   | PPanicked => [3; 0]
   | PDropped => [4; 0]
@@ -306,7 +311,7 @@ Definition enc_call (c : callst Z Z Z) : list Z :=
    result kind: 0 Ok, 1 Err(Inner), 2 Err(FallbackFailed), 3 panicked, 4 dropped, 5 not finished *)
 Definition run_script (s : list Z) : list Z :=
   let m := run_ops (strategy_of s) (pred_of (zn s 1 mod 4)) (ops_of s) in
-  [Z.of_nat (length (m_calls m))] ++ flat_map enc_call (m_calls m) ++
+  [Z.of_nat (length (m_calls m))] ++ flat_map enc_call (combine (seq 0 (length (m_calls m))) (m_calls m)) ++
   [Z.of_nat (length (m_ready m))] ++ flat_map enc_ferr (m_ready m) ++
   [Z.of_nat (length (m_flags m))] ++ m_flags m ++
   [Z.of_nat (length (m_events m))] ++ flat_map enc_event (m_events m).
